@@ -13,7 +13,10 @@ from hypothesis import strategies as st
 KINDS = ["gen", "coro", "agen", "func"]
 TARGET_FORMS = ["none", "name", "attr", "nested_attr", "sub", "subname", "call_sub", "tuple", "list", "star",
                 "star_mid", "nested_unpack", "walrus", "arith", "kwcall", "slice", "sub_chain", "attr_sub", "call_args",
-                "star_first", "tuple_attr_sub", "global_name", "maybe_attr", "maybe_sub", "maybe_unpack"]
+                "star_first", "tuple_attr_sub", "global_name", "maybe_attr", "maybe_sub", "maybe_unpack",
+                # positional call of a callable held in a LOCAL variable; subscript by the constant ...; a slice with an
+                # omitted bound (not in the always-rendered set; if rendered, an omitted bound and None are the same target)
+                "call_local", "sub_ellipsis", "open_slice"]
 JUMPS = ("ret", "retk", "retv", "raise", "break", "continue")
 
 
